@@ -16,7 +16,8 @@ def ck(name, entry, enforce, desc, geoms, canaries=1, extra_uw=()):
              [f"{entry}.{k}:{max(nodes, tot) + 2}" for k in range(8)] + [f"memcpy.0:{max(nodes, tot) + 2}"] + list(extra_uw)
         hs.append(H(name=f"C05.{name}.g{t}_{b}", file=FC, entry=entry, enforce=enforce, funcs=[enforce] if enforce else ["checkpoint_full_take", "checkpoint_full_restore"],
                     geometry=(t, b), kind="bounded", bound=f"reduced arena geometry B_TOTAL_EXP={t}, B_BLOCK_EXP={b}: all well-formed trees, all arena contents",
-                    unwindset=tuple(uw), tiers=tiers, timeout=to, mem_gb=16, canaries=canaries, objbits=8, desc=desc))
+                    unwindset=tuple(uw), tiers=tiers, timeout=to, mem_gb=16, canaries=canaries, objbits=8, desc=desc,
+                    fallback_unwind=walk + 6))
     return hs
 
 G_Q = [((4, 1), ("quick", "thorough"), 900)]
